@@ -167,7 +167,7 @@ impl Prop for C19 {
     }
 
     fn runs(tier: Tier) -> u64 {
-        tier.pick(40_000, 2_000_000)
+        tier.pick(150_000, 8_000_000)
     }
 
     fn generate(r: &mut Rng, tier: Tier, _idx: u64) -> Scn {
